@@ -56,17 +56,53 @@ class ParserModel:
         self.same_file = same_file
         # first find "read": inline everything of this file, look for the call whose destination is Result<Request, E>
         full = inline.inlined(facts, self.cc_next.id, stop=lambda d: facts.fns[d].rec.get("local") and not same_file(d), extern_ok=Q.std_small)
-        prod = set()
+        # (called by next() itself, or by the step helper(s) next() is made of: the outermost such call)
+        by_depth = {}
         for b in range(full.n):
             ic = full.blocks[b].get("inl_call")
-            if ic and full.local_ty(ic["dest"]["l"]).startswith("std::result::Result<request::Request,") and full.blocks[b].get("depth") == 0:
-                prod.add(full.term(b).get("inl_enter"))
+            if ic and full.local_ty(ic["dest"]["l"]).startswith("std::result::Result<request::Request,"):
+                by_depth.setdefault(full.blocks[b].get("depth") or 0, set()).add(full.term(b).get("inl_enter"))
+        prod = set(by_depth[min(by_depth)]) if by_depth else set()
         if len(prod) != 1:
             raise CheckerError("parser rules: the function next() calls to obtain Result<Request, _> was not found (%s)" % sorted(map(str, prod)))
         self.read_def = prod.pop()
-        self.nxt = inline.inlined(facts, self.cc_next.id, stop=lambda d: facts.fns[d].rec.get("local") and (not same_file(d) or d == self.read_def), extern_ok=Q.std_small)
+        self.read_p = self.read_def          # the function whose result is the Result<Request, _>
+        self.read_h = None                   # (a separate function that reads the head, when the two are split)
+        def has_line_calls(fid):
+            g_ = inline.inlined(facts, fid, stop=lambda d: facts.fns[d].rec.get("local") and not same_file(d), extern_ok=Q.std_small)
+            for b in range(g_.n):
+                ic = g_.blocks[b].get("inl_call")
+                if ic and re.match(LINE_TY, g_.local_ty(ic["dest"]["l"])):
+                    return True
+            return False
+        if not has_line_calls(self.read_p):
+            # the head is read by one function (`read_head() -> Result<Head, E>`) and the request built by another (`build_request(head) ->
+            # Result<Request, E>`), called one after the other with their errors going the same way: the two together are "the head reader"
+            dmin = min(by_depth)
+            pb = [b for b in range(full.n) if full.blocks[b].get("inl_call") and full.term(b).get("inl_enter") == self.read_p and (full.blocks[b].get("depth") or 0) == dmin]
+            pty = full.local_ty(full.blocks[pb[0]]["inl_call"]["dest"]["l"]) if pb else ""
+            mm_ = re.match(r"^std::result::Result<request::Request, ([\w:]+)>$", pty)
+            hs = []
+            if mm_:
+                for b in range(full.n):
+                    ic = full.blocks[b].get("inl_call")
+                    d_ = full.term(b).get("inl_enter") if ic else None
+                    if ic and d_ != self.read_p and (full.blocks[b].get("depth") or 0) == dmin and \
+                            re.match(r"^std::result::Result<.+, %s>$" % re.escape(mm_.group(1)), full.local_ty(ic["dest"]["l"])) and same_file(d_) and "{closure" not in d_ and has_line_calls(d_):
+                        if all(full.dominates(b, x, unwind=False) for x in pb) and d_ not in [h for h, _ in hs]:
+                            hs.append((d_, full.local_ty(ic["dest"]["l"])))
+            H = facts.fns.get(hs[0][0]) if len(hs) == 1 else None
+            P = facts.fns[self.read_p]
+            okty = re.match(r"^std::result::Result<(.+), %s>$" % re.escape(mm_.group(1)), hs[0][1]).group(1) if H is not None else None
+            if H is not None and H.argc == 1 and P.argc == 2 and P.local_ty(2) == okty and P.local_ty(1) == H.local_ty(1):
+                self.read_h = H.id
+                self.read_def = self._compose(facts, H, P, hs[0][1], pty, mm_.group(1))
+        stops = {self.read_p, self.read_h} - {None}
+        self.nxt = inline.inlined(facts, self.cc_next.id, stop=lambda d: facts.fns[d].rec.get("local") and (not same_file(d) or d in stops), extern_ok=Q.std_small)
         self.rd = inline.inlined(facts, self.read_def, stop=lambda d: facts.fns[d].rec.get("local") and not same_file(d), extern_ok=Q.std_small)
-        self.read_calls = [bb for bb, t in self.nxt.calls() if call_name(t) == self.read_def]
+        self.read_calls = [bb for bb, t in self.nxt.calls() if call_name(t) == self.read_p]
+        self.head_calls = [bb for bb, t in self.nxt.calls() if self.read_h is not None and call_name(t) == self.read_h]
+        self.read_entry = self.read_h or self.read_p
         ty = self.nxt.local_ty(self.nxt.term(self.read_calls[0])["dest"]["l"])
         mm = re.match(r"^std::result::Result<request::Request, ([\w:]+)>$", ty)
         self.err_adt = mm.group(1) if mm else None
@@ -106,6 +142,53 @@ class ParserModel:
             if o is not None and o[0] == "b":
                 self.flag_closed.add(("b", not o[1]))
 
+    def is_read_entry(self, t):
+        """is the call terminator the one with which next() starts reading a request?"""
+        return t.get("t") == "call" and call_name(t) == self.read_entry
+
+    def _compose(self, facts, H, P, hty, pty, ety):
+        """`fn read(&mut self) -> Result<Request, E> { let head = H(self)?; P(self, head) }` as a body of its own (H and P resolved to
+        their instances), registered under a name of its own"""
+        from core import Fn
+        sid = "%s::<head reader: %s + %s>" % (CC, H.id.rsplit("::", 1)[-1], P.id.rsplit("::", 1)[-1])
+        if sid in facts.fns:
+            return sid
+        line = H.line
+        L = lambda ty, nm=None: {"ty": ty, "adt": None, "name": nm, "mut": True}
+        okty = P.local_ty(2)
+        locs = [L(pty), L(H.local_ty(1), "self"), L(hty), L(okty, "head"), L("isize"), L(H.local_ty(1)), L(H.local_ty(1))]
+        pl = lambda l, *proj: {"l": l, "p": list(proj)}
+        mv = lambda l, *proj: {"k": "move", "pl": pl(l, *proj)}
+        asg = lambda lhs, rhs: {"s": "assign", "line": line, "exp": False, "lhs": lhs, "rhs": rhs, "syn": True}
+        fld0 = {"f": 0, "n": "0", "ty": "?"}
+        def inst_of(g):
+            c = [x for x in facts.instances_of(g.id) if x["kind"] == "item"]
+            return c[0]["id"] if len(c) == 1 else None
+        def call(g, args, dest, target):
+            t = {"t": "call", "line": line, "exp": False, "callee": g.id, "callee_krate": "tiny_http", "gargs": [], "name": g.id.rsplit("::", 1)[-1], "res": g.id, "res_krate": "tiny_http",
+                 "res_kind": "item", "res_name": g.id, "args": args, "arg_tys": [g.local_ty(i + 1) for i in range(len(args))], "dest": pl(dest), "target": target, "unwind": "continue", "fn_exp": False, "syn": True}
+            i = inst_of(g)
+            if i is not None:
+                t["syn_to"] = i
+            return t
+        reb = lambda dst: asg(pl(dst), {"rv": "ref", "mut": True, "pl": pl(1, "*")})
+        blocks = [
+            {"cleanup": False, "stmts": [reb(5)], "term": call(H, [mv(5)], 2, 1)},
+            {"cleanup": False, "stmts": [asg(pl(4), {"rv": "discr", "pl": pl(2), "ty": hty, "adt": "std::result::Result", "variants": [[0, "Ok"], [1, "Err"]]})],
+             "term": {"t": "switch", "line": line, "exp": False, "discr": mv(4), "dty": "isize", "targets": [[0, 2], [1, 3]], "otherwise": 5}},
+            {"cleanup": False, "stmts": [asg(pl(3), {"rv": "use", "op": mv(2, {"d": "Ok"}, fld0)}), reb(6)], "term": call(P, [mv(6), mv(3)], 0, 4)},
+            {"cleanup": False, "stmts": [asg(pl(0), {"rv": "agg", "agg": "adt", "adt": "std::result::Result", "variant": "Err", "fields": ["0"], "ops": [mv(2, {"d": "Err"}, fld0)]})],
+             "term": {"t": "goto", "line": line, "exp": False, "target": 4}},
+            {"cleanup": False, "stmts": [], "term": {"t": "return", "line": line, "exp": False}},
+            {"cleanup": False, "stmts": [], "term": {"t": "unreachable", "line": line, "exp": False}},
+        ]
+        mir = {"blocks": blocks, "locals": locs, "argc": 1, "file": H.mir["file"], "line": line}
+        if H.mir.get("real_file"):
+            mir["real_file"] = H.mir["real_file"]
+        rec = {"id": sid, "local": True, "synthetic": True, "def_kind": "AssocFn", "promoted": [], "mir": mir, "vis_pub": False, "impl_self_adt": CC, "impl_trait": None, "name": "read"}
+        facts.fns[sid] = Fn(facts, rec)
+        return sid
+
     def flag_term(self, nv):
         if nv[0] == "b":
             return ("const", nv[1], "true" if nv[1] else "false", None)
@@ -136,14 +219,42 @@ class ParserModel:
         """abstract paths of next() after the call of read returned `value`"""
         out = []
         f = self.nxt
+        # the state in which the read call is reached: the entry of next() explored up to that call (the call may sit inside a step helper,
+        # whose arguments -- the reborrowed `self` -- are bound on the way there)
+        if not hasattr(self, "_pre_read"):
+            self._pre_read = {}
+            def at_read(bb, t2, st2):
+                if t2["t"] == "call" and call_name(t2) == self.read_p:
+                    return "read"
+            for p in absint.explore(f, 0, None, stop=at_read, max_paths=200):
+                if p.end[0] == "stop" and p.end[2] == "read":
+                    self._pre_read.setdefault(p.blocks[-1], p.state)
         for rb in self.read_calls:
             t = f.term(rb)
-            st = symex.Sym(f)
+            st = self._pre_read[rb].clone() if rb in self._pre_read else symex.Sym(f)
             st.write_key(pl_key(t["dest"]), value)
             def stop(bb, t2, st2):
-                if stop_at_read and t2["t"] == "call" and call_name(t2) == self.read_def:
+                if stop_at_read and self.is_read_entry(t2):
                     return "read-again"
             out += absint.explore(f, t["target"], st, stop=stop, **kw)
+        # an error may also come out of the function that reads the head, when that is a function of its own
+        if self.head_calls and value and value[0] == "agg" and value[2] == "Err":
+            if not hasattr(self, "_pre_head"):
+                self._pre_head = {}
+                def at_head(bb, t2, st2):
+                    if self.is_read_entry(t2):
+                        return "head"
+                for p in absint.explore(f, 0, None, stop=at_head, max_paths=200):
+                    if p.end[0] == "stop" and p.end[2] == "head":
+                        self._pre_head.setdefault(p.blocks[-1], p.state)
+            for hb in self.head_calls:
+                t = f.term(hb)
+                st = self._pre_head[hb].clone() if hb in self._pre_head else symex.Sym(f)
+                st.write_key(pl_key(t["dest"]), value)
+                def stop2(bb, t2, st2):
+                    if stop_at_read and self.is_read_entry(t2) and bb != hb:
+                        return "read-again"
+                out += absint.explore(f, t["target"], st, stop=stop2, **kw)
         return out
 
     def flag_set(self, p):
